@@ -133,28 +133,8 @@ def fastRun (g : AGraph) (wlen : Nat) (mp mf : Option Nat) (mb a b : Nat) (p0 : 
     iter := iter + 1
   return p
 
-/-- op: `kl <max_passes|-> <max_flips|-> <max_bad> <wlen> <n> <ids…> <rows> {<deg> {<j> <w>}…}…`
-out: `ok <cut before> <cut after> | <ids>` | `panic <class>` -/
-def handleKl (toks : List String) : String :=
-  match toks with
-  | mp :: mf :: mb :: wlen :: n :: rest =>
-    match (do
-      let mp ← parseOptNat? mp
-      let mf ← parseOptNat? mf
-      let mb ← parseNat? mb
-      let wlen ← parseNat? wlen
-      let n ← parseNat? n
-      if n > fastLimit then pure none else
-      let (ids, rest) ← takeParsed parseNat? n rest
-      match rest with
-      | r :: rest =>
-        let r ← parseNat? r
-        let (g, rest) ← takeRows r rest
-        if rest.isEmpty && g.all strictlyIncreasing then some (some (mp, mf, mb, wlen, ids, g)) else none
-      | [] => none) with
-    | none => "bad-op"
-    | some none => "skip large-n (oracle only)"
-    | some (some (mp, mf, mb, wlen, ids, g)) =>
+/-- The model's answer on a parsed case (shared by `kl`, `klx` and `klt`). -/
+def klAnswer (mp mf : Option Nat) (mb wlen : Nat) (ids : List Nat) (g : Graph) : String :=
       let n := ids.length
       -- where the array transcription applies: `kl_total`'s hypotheses
       let fast : Option (Array Nat) :=
@@ -179,6 +159,93 @@ def handleKl (toks : List String) : String :=
           let ga := (g.map List.toArray).toArray
           "ok " ++ toString (edgeCutA ga ids.toArray) ++ " " ++ toString (edgeCutA ga f) ++ " | " ++ joinNats f.toList
         | none => "skip large-n, not well-formed"
+
+/-- op: `kl <max_passes|-> <max_flips|-> <max_bad> <wlen> <n> <ids…> <rows> {<deg> {<j> <w>}…}…`
+out: `ok <cut before> <cut after> | <ids>` | `panic <class>` -/
+def handleKl (toks : List String) : String :=
+  match toks with
+  | mp :: mf :: mb :: wlen :: n :: rest =>
+    match (do
+      let mp ← parseOptNat? mp
+      let mf ← parseOptNat? mf
+      let mb ← parseNat? mb
+      let wlen ← parseNat? wlen
+      let n ← parseNat? n
+      if n > fastLimit then pure none else
+      let (ids, rest) ← takeParsed parseNat? n rest
+      match rest with
+      | r :: rest =>
+        let r ← parseNat? r
+        let (g, rest) ← takeRows r rest
+        if rest.isEmpty && g.all strictlyIncreasing then some (some (mp, mf, mb, wlen, ids, g)) else none
+      | [] => none) with
+    | none => "bad-op"
+    | some none => "skip large-n (oracle only)"
+    | some (some (mp, mf, mb, wlen, ids, g)) => klAnswer mp mf mb wlen ids g
+  | _ => "bad-op"
+
+def insertE (e : Nat × Int) : List (Nat × Int) → List (Nat × Int)
+  | [] => [e]
+  | x :: t => if e.1 ≤ x.1 then e :: x :: t else x :: insertE e t
+
+/-- a neighbour list in ascending order of the neighbours -/
+def sortRow (r : List (Nat × Int)) : List (Nat × Int) := r.foldr insertE []
+
+/-- `csv` | `csr` | `cus` | `cusr` | `g2[r]:W:H` | `g3[r]:W:H:D` (positive dimensions);
+the result says whether the type is a sprs matrix view (lists must be strictly increasing). -/
+def parseTopo? (t : String) : Option Bool :=
+  match t.splitOn ":" with
+  | [] => none
+  | h :: dims =>
+    match dims.mapM parseNat? with
+    | none => none
+    | some ds =>
+      if ds.any (fun d => d == 0 || d > 65536) then none
+      else if (h == "csv" || h == "csr") && ds.length == 0 then some true
+      else if (h == "cus" || h == "cusr") && ds.length == 0 then some false
+      else if (h == "g2" || h == "g2r") && ds.length == 2 then some false
+      else if (h == "g3" || h == "g3r") && ds.length == 3 then some false
+      else none
+
+/-- op: `klt <topo> <max_imbalance|-> <max_passes|-> <max_flips|-> <max_bad> <wn> <vertex weights…>
+<n> <ids…> <rows> {<deg> {<j> <w>}…}…`.  The code (and therefore the model) reads neither
+`max_imbalance_per_flip` nor the values of the vertex weights (only their number), and it reads
+the topology through `neighbors` / `edge_cut` only, in sums of exact integers: the answer is the
+one of `kl` on the same graph with ascending neighbour lists, whatever the type of the topology
+and the order of its lists.  (That the lists of a `g2`/`g3` op are those of the named `Grid` is
+checked by the harness against `Grid::neighbors`.) -/
+def handleKlt (toks : List String) : String :=
+  match toks with
+  | topo :: mi :: mp :: mf :: mb :: wn :: rest =>
+    match (do
+      let sprs ← parseTopo? topo
+      let _ ← (if mi == "-" then some 0 else if mi.length == 16 then parseHex? mi else none)
+      let mp ← parseOptNat? mp
+      let mf ← parseOptNat? mf
+      let mb ← parseNat? mb
+      let wn ← parseNat? wn
+      if wn > 1048576 then none else
+      let (vw, rest) ← takeParsed parseInt? wn rest
+      if vw.any (fun w => w.natAbs > 1125899906842624) then none else
+      match rest with
+      | n :: rest =>
+        let n ← parseNat? n
+        let (ids, rest) ← takeParsed parseNat? n rest
+        match rest with
+        | r :: rest =>
+          let r ← parseNat? r
+          if r != n then none else
+          let (g, rest) ← takeRows r rest
+          let gs := g.map sortRow
+          if rest.isEmpty && gs.all strictlyIncreasing && (!sprs || g.all strictlyIncreasing)
+              && g.all (fun row => row.all (fun e => e.1 < n)) then
+            some (mp, mf, mb, wn, ids, gs)
+          else none
+        | [] => none
+      | [] => none) with
+    | none => "bad-op"
+    | some (mp, mf, mb, wn, ids, gs) =>
+      if ids.length > fastLimit then "skip large-n (oracle only)" else klAnswer mp mf mb wn ids gs
   | _ => "bad-op"
 
 /-- `kl …` as above; `klx <threads ≤ 64> <reuse 0|1> …` = the same call made inside a rayon pool
@@ -187,6 +254,7 @@ before: neither may change the result, the model's answer is the same. -/
 def handle (toks : List String) : String :=
   match toks with
   | "kl" :: rest => handleKl rest
+  | "klt" :: rest => handleKlt rest
   | "klx" :: t :: r :: rest =>
     match parseNat? t, parseNat? r with
     | some t, some r => if t ≤ 64 && r ≤ 1 then handleKl rest else "bad-op"
